@@ -311,10 +311,26 @@ def core_models(I, st, caller, func, args, argtys, dest_ty):
     if m and isinstance(args[0], EnumV) and norm_type(args[0].name) == norm_type(m.group(2)):
         # generic body instantiated at D = T: `impl<T> From<T> for T` is the identity
         return ret(st, args[0])
+    m = re.match(r"^<(.*) as TryInto<(.*)>>::try_into$", f)
+    if m:
+        # blanket impl: U::try_from(self)
+        return I.dispatch_call(st, caller, "<%s as TryFrom<%s>>::try_from" % (m.group(2), m.group(1)), args, argtys, dest_ty)
     m = re.match(r"^<(.*) as Into<(.*)>>::into$", f)
     if m:
         # blanket impl: U::from(self)
         return I.dispatch_call(st, caller, "<%s as From<%s>>::from" % (m.group(2), m.group(1)), args, argtys, dest_ty)
+    if re.match(r"^Option::<Result<.*>>::transpose$", f):
+        v = deref_all(I, st, args[0])
+        dz = lambda d: d if z3.is_expr(d) else z3.IntVal(d)
+        if 1 not in v.payloads or not v.payloads[1]:
+            return ret(st, EnumV("Result", 0, {0: (EnumV("Option", 0, {}),)}))
+        inner = v.payloads[1][0]
+        ok_payload = inner.payloads.get(0, (Opaque("unreachable"),))[0]
+        d = z3.simplify(z3.If(dz(v.discr) == 0, 0, dz(inner.discr)))
+        pl = {0: (EnumV("Option", v.discr, {1: (ok_payload,)}),)}
+        if 1 in inner.payloads:
+            pl[1] = inner.payloads[1]
+        return ret(st, EnumV("Result", d.as_long() if z3.is_int_value(d) else d, pl))
     if re.match(r"^(Option|Result)::<.*>::(as_ref|as_mut|as_deref)$", f):
         v = deref_all(I, st, args[0])
         if isinstance(v, EnumV):
